@@ -89,6 +89,8 @@ fn voting_thread(
                 tracks,
                 monitor,
             } => {
+                #[cfg(similari_verif)]
+                crate::verif_hooks::point("voting.job.begin", scene_id, tracks.len() as u64);
                 let voting = VisualVoting::new(
                     match metric_opts.positional_kind {
                         PositionalMetricType::Mahalanobis => MAHALANOBIS_NEW_TRACK_THRESHOLD,
@@ -101,6 +103,8 @@ fn voting_thread(
                 let mut res = Vec::default();
                 for mut t in tracks {
                     let source = t.get_track_id();
+                    #[cfg(similari_verif)]
+                    crate::verif_hooks::point("voting.store.write", scene_id, res.len() as u64);
 
                     let tid = {
                         let mut track_id = track_id.write().unwrap();
@@ -142,6 +146,8 @@ fn voting_thread(
                     res.push(SortTrack::from(track))
                 }
 
+                #[cfg(similari_verif)]
+                crate::verif_hooks::point("voting.result.send", scene_id, 0);
                 let res = channel.send((scene_id, res));
                 if let Err(e) = res {
                     warn!("Unable to send results to a caller, likely the caller already closed the channel. Error is: {:?}", e);
@@ -151,6 +157,8 @@ fn voting_thread(
                 let mut lock = lock.lock().unwrap();
                 *lock -= 1;
                 cvar.notify_one();
+                #[cfg(similari_verif)]
+                crate::verif_hooks::point("voting.job.end", scene_id, 0);
             }
             VotingCommands::Exit => break,
         }
@@ -218,6 +226,8 @@ impl BatchVisualSort {
             self.auto_waste.counter -= 1;
         }
 
+        #[cfg(similari_verif)]
+        crate::verif_hooks::point("batch.predict.wait", 0, 0);
         if let Some(m) = &self.monitor {
             let (lock, cvar) = &**m;
             let _guard = cvar.wait_while(lock.lock().unwrap(), |v| *v > 0).unwrap();
@@ -313,6 +323,8 @@ impl BatchVisualSort {
                     tracks,
                 })
                 .expect("Sending voting request to voting thread must not fail");
+            #[cfg(similari_verif)]
+            crate::verif_hooks::point("batch.scene.dispatched", *scene_id, thread_id as u64);
         }
     }
 
